@@ -362,7 +362,44 @@ def _run(ctx):
         fns.append(rn[0])
     else:
         ctx.missing("C06.forward", "ShapeReader::read_nth_shape_as")
+    def record_sites(sites):
+        out = []
+        for s_, w in sites:
+            ty = discipline.site_dest_ty(F, s_) or ""
+            if util.local_fn(F, w) is not None and ty.startswith("std::result::Result<") and not ty.startswith("std::result::Result<(),"):
+                out.append((s_, w))
+            elif w in ("record::ReadableShape::read_from", "record::RecordHeader::read_from"):
+                out.append((s_, w))
+        return out
+
+    # an entry point that only chooses between private helpers and returns what they return (`match idx { Some(_) =>
+    # self.next_indexed(), None => self.next_sequential() }`) is decided on the helpers, under the entry point's name
+    def expand(g, entry, depth):
+        sites, paths, err = discipline.fallible_sites(F, g)
+        if sites is None or record_sites(sites) or depth == 0:
+            return [(g, entry)]
+        hs = []
+        for p in paths:
+            r = p.ret if p.status == 'return' else None
+            h = util.local_fn(F, r[2]) if r is not None and r[0] == 'ret' and len(r) > 2 and isinstance(r[2], str) else None
+            if h is not None and h not in hs and h is not g:
+                hs.append(h)
+        if not hs:
+            return [(g, entry)]
+        for p in paths:
+            for e in p.eff:
+                if e[0] == 'call' and any(util.local_fn(F, x) in hs for x in (e[1], e[2]) if isinstance(x, str)):
+                    if p.status == 'return' and p.ret != e[-1]:
+                        return [(g, entry)]           # a helper's result is looked at or rewrapped here: decide g itself
+        out = []
+        for h in hs:
+            out += expand(h, entry, depth - 1)
+        return out
+
+    expanded = []
     for g in fns:
+        expanded += expand(g, g, 3)
+    for g, entry in expanded:
         sites, paths, err = discipline.fallible_sites(F, g)
         if sites is None:
             ctx.unanalysable("C06.forward", g["def"], err)
@@ -401,6 +438,7 @@ def _run(ctx):
                 if not any(absint.contains(shp, r) for r in rets):
                     ok = False
                     why.append("the item is not the shape the record reader returned")
-        ctx.ob("C06.forward", g["def"].split("::")[-1], ok, "; ".join(sorted(set(why))) or
+        label = entry["def"].split("::")[-1] + ("" if g is entry else " via " + g["def"].split("::")[-1])
+        ctx.ob("C06.forward", label, ok, "; ".join(sorted(set(why))) or
                "Err(e) -> Some(Err(e)) untouched, Ok((_, shape)) -> Some(Ok(shape)) (%d record-read sites)" % len(rec),
-               site=ctx.site_of(F, g["def"]), key="C06.forward|%s" % g["def"].split("::")[-1])
+               site=ctx.site_of(F, g["def"]), key="C06.forward|%s" % label)
